@@ -781,4 +781,39 @@ theorem rows_consistent_model (g : Grid) (y : Rat) (rows : List RRow) (hm : Mode
   · simp at hp
   · exact ⟨hs, a, b, by simpa [rowPass] using ha, hay, by simpa [rowPass] using hb, hbb⟩
 
+/-! ## no overlap in the y axis -/
+
+theorem chained_below (sy : Rat) (rows : List (Rat × Rat)) (y e : Rat) (hch : Chained sy y rows e)
+    (hnn : ∀ t ∈ rows, 0 ≤ t.2) (hsy : 0 ≤ sy) (i j : Nat) (hij : i < j) (a b : Rat × Rat)
+    (ha : rows[i]? = some a) (hb : rows[j]? = some b) : a.1 + a.2 ≤ b.1 := by
+  have hA := chained_get sy rows y e hch i a ha
+  have hB := chained_get sy rows y e hch j b hb
+  have hah : (rows.map (·.2))[i]? = some a.2 := by simp [List.getElem?_map, ha]
+  have hps := pre_succ (rows.map (·.2)) i a.2 hah
+  have hm := pre_mono (rows.map (·.2)) (by
+    intro w hw; simp only [List.mem_map] at hw; obtain ⟨t, ht, rfl⟩ := hw; exact hnn t ht) (i + 1) j hij
+  have hs := mul_nat_mono sy i j hsy (Nat.le_of_lt hij)
+  grind
+
+/-- every cell of a model row group: top of its first row, bottom of its last row -/
+theorem cell_rows (g : Grid) (y : Rat) (rows : List RRow) (hm : ModelRows g y rows) (c : Cell) (hc : c ∈ g.cells) :
+    1 ≤ c.rs ∧ ∃ a b, (rowPass g.sy y rows).rows[c.gy]? = some a ∧ a.1 = c.y ∧
+      (rowPass g.sy y rows).rows[c.gy + c.rs - 1]? = some b ∧ c.y + c.h = b.1 + b.2 := by
+  obtain ⟨d, hd, h1, h2, h3, h4⟩ := hm.2 c hc
+  rcases rowLoop_cells g.sy rows 0 y [] d hd with ⟨p, hp, _⟩ | ⟨_, hs, a, b, ha, hay, hb, hbb⟩
+  · simp at hp
+  · have e : c.gy + c.rs - 1 = d.row - 0 + (d.span - 1) := by omega
+    refine ⟨by omega, a, b, ?_, by rw [h3]; exact hay, ?_, by rw [h3, h4]; exact hbb⟩
+    · rw [h1]; simpa [rowPass] using ha
+    · rw [e]; simpa [rowPass] using hb
+
+/-- a cell whose rows end before another cell's first row lies entirely above it -/
+theorem rows_disjoint (g : Grid) (y : Rat) (rows : List RRow) (hm : ModelRows g y rows) (hsy : 0 ≤ g.sy)
+    (c d : Cell) (hc : c ∈ g.cells) (hd : d ∈ g.cells) (h : c.gy + c.rs ≤ d.gy) : c.y + c.h ≤ d.y := by
+  obtain ⟨c1, _, cb, _, _, hcb, hcbb⟩ := cell_rows g y rows hm c hc
+  obtain ⟨_, da, _, hda, hday, _, _⟩ := cell_rows g y rows hm d hd
+  have := chained_below g.sy _ y _ (rowLoop_chained g.sy rows 0 y []) (rowLoop_heights_nonneg g.sy rows 0 y []) hsy
+    (c.gy + c.rs - 1) d.gy (by omega) cb da (by simpa [rowPass] using hcb) (by simpa [rowPass] using hda)
+  rw [hcbb, ← hday]; exact this
+
 end WR.C13
